@@ -188,6 +188,15 @@ class ExtObj:
 
 
 @dataclass(eq=False)
+class ExtView:
+    """View of an abstract graph: nodes | edges | adj | pred (mapping node -> neighbours) | adj1 | pred1 (neighbours of `key`)."""
+
+    obj: ExtObj
+    kind: str
+    key: Any = None
+
+
+@dataclass(eq=False)
 class FuncVal:
     fi: FuncInfo
     self_val: Any = None  # bound receiver (instance or ClassVal for classmethods)
@@ -333,6 +342,7 @@ class Explorer:
         self.stop = stop or set()
         self.max_runs = max_runs
         self.max_steps = max_steps
+        self.entered: set[str] = set()  # fq of every repo function interpreted on some path
         self.fallbacks: set[str] = set()  # functions treated as uninterpreted because their body could not be interpreted on symbolic arguments
 
     interp_cls: Any = None
@@ -446,6 +456,8 @@ class InterpBase:
             return True
         if isinstance(v, ExtObj):
             return self.decide(App(f"nonempty@{v.version}", (v.name,)))
+        if isinstance(v, ExtView):
+            return self.decide(App(f"nonempty@{v.obj.version}", (v.obj.name, v.kind, _h(v.key))))
         raise Unsupported(f"truth value of {type(v).__name__}")
 
     def is_none(self, v: Any) -> bool:
@@ -515,7 +527,17 @@ class InterpBase:
                 return x in container
             return self.decide(App("in", (x, container)))
         if isinstance(container, ExtObj):
-            return self.decide(App(f"hasnode@{container.version}", (container.name, x)))
+            return self.decide(App(f"hasnode@{container.version}", (container.name, _h(x))))
+        if isinstance(container, ExtView):
+            o, v = container.obj, container.obj.version
+            if container.kind in ("nodes", "adj", "pred"):
+                return self.decide(App(f"hasnode@{v}", (o.name, _h(x))))
+            if container.kind == "edges":
+                if isinstance(x, tuple) and len(x) >= 2:
+                    return self.decide(App(f"hasedge@{v}", (o.name, _h(x[0]), _h(x[1]))))
+                raise Unsupported("membership of a symbolic value in an edge view")
+            a, b = (container.key, x) if container.kind == "adj1" else (x, container.key)
+            return self.decide(App(f"hasedge@{v}", (o.name, _h(a), _h(b))))
         if isinstance(container, Term):
             return self.decide(App("in", (x, container)))
         if isinstance(container, Inst):
@@ -594,6 +616,8 @@ def _h(v: Any) -> Any:
         return ("dict", tuple((_h(k), _h(x)) for k, x in v.items()))
     if isinstance(v, ExtObj):
         return v.name
+    if isinstance(v, ExtView):
+        return ("view", v.obj.name, v.kind, _h(v.key), v.obj.version)
     if isinstance(v, (Inst, ANode, FuncVal, ClassVal, Partial, Closure, BoundBuiltin)):
         return ("obj", id(v), show(v))
     return v
